@@ -3532,8 +3532,12 @@ impl<'a, E: quiver_core::effects::Effect> Compiler<'a, E> {
             Some(ast::AccessSource::TailCall(identifier)) => {
                 // `^` / `^f` / `^f.field` - a tail call (TCO). The flowing value (chained, or the
                 // argument of an enclosing `Apply`) is the call argument, already on the stack.
-                let ty =
-                    self.compile_tail_call(identifier.as_deref(), &access.accessors, value_type)?;
+                let ty = self.compile_tail_call(
+                    identifier.as_deref(),
+                    &access.accessors,
+                    value_type,
+                    implicit_flow,
+                )?;
                 Ok((ty, Provenance::Unknown))
             }
             Some(ast::AccessSource::TailCallRipple) => {
@@ -4440,9 +4444,10 @@ impl<'a, E: quiver_core::effects::Effect> Compiler<'a, E> {
         identifier: Option<&str>,
         accessors: &[ast::AccessPath],
         arg_type: Option<usize>,
+        implicit_flow: bool,
     ) -> Result<usize, Error> {
         // Handle argument - if none provided, check if function parameter is nil and use that
-        let _arg_type = if let Some(arg_t) = arg_type {
+        let arg_type = if let Some(arg_t) = arg_type {
             arg_t
         } else {
             let (func_param_type, _) = scopes::get_function_parameter(&self.scopes)?;
@@ -4460,7 +4465,14 @@ impl<'a, E: quiver_core::effects::Effect> Compiler<'a, E> {
         };
 
         if identifier.is_none() && accessors.is_empty() {
-            // Tail call to parameter - argument is already on stack, just emit tail call
+            // Tail call to parameter - the argument is already on the stack. It re-enters the
+            // enclosing function, so it is checked against that function's declared parameter.
+            let param_id = scopes::get_declared_function_parameter(&self.scopes)?;
+            if self.check_tail_call_argument(param_id, arg_type, implicit_flow)? {
+                // Stack: [value] -> [nil]
+                self.codegen.add_instruction(Instruction::Pop);
+                self.codegen.add_instruction(Instruction::Tuple(NIL));
+            }
             self.codegen.add_instruction(Instruction::TailCall(true));
             Ok(self.program.never())
         } else {
@@ -4487,9 +4499,19 @@ impl<'a, E: quiver_core::effects::Effect> Compiler<'a, E> {
 
             // Verify it's a function
             match self.program.lookup_type(func_type) {
-                Some(Type::Callable { result, .. }) => {
+                Some(Type::Callable {
+                    parameter, result, ..
+                }) => {
+                    let (parameter, result) = (*parameter, *result);
+                    if self.check_tail_call_argument(parameter, arg_type, implicit_flow)? {
+                        // Stack: [value, callable] -> [callable] -> [nil, callable]
+                        self.codegen.add_instruction(Instruction::Rotate(2));
+                        self.codegen.add_instruction(Instruction::Pop);
+                        self.codegen.add_instruction(Instruction::Tuple(NIL));
+                        self.codegen.add_instruction(Instruction::Rotate(2));
+                    }
                     self.codegen.add_instruction(Instruction::TailCall(false));
-                    Ok(*result)
+                    Ok(result)
                 }
                 _ => Err(Error::TypeMismatch {
                     expected: "function".to_string(),
@@ -4497,6 +4519,34 @@ impl<'a, E: quiver_core::effects::Effect> Compiler<'a, E> {
                 }),
             }
         }
+    }
+
+    /// Check a tail call's argument against the target's parameter, as a plain call does: a
+    /// nilary target ignores an implicitly-flowing value (returns `true` when that value is
+    /// non-nil and must be replaced with nil on the stack), a generic parameter is unified, and
+    /// anything else must be compatible.
+    fn check_tail_call_argument(
+        &mut self,
+        param_id: usize,
+        arg_type: usize,
+        implicit_flow: bool,
+    ) -> Result<bool, Error> {
+        if implicit_flow && self.is_nil(param_id) {
+            return Ok(!self.is_nil(arg_type));
+        }
+        if typing::contains_variables(param_id, &*self.program) {
+            let mut bindings = HashMap::new();
+            typing::unify(&mut bindings, param_id, arg_type, self.program)?;
+        } else if !quiver_core::types::is_compatible(arg_type, param_id, &*self.program) {
+            return Err(Error::TypeMismatch {
+                expected: format!(
+                    "function parameter compatible with {}",
+                    quiver_core::format::format_type_by_id(&*self.program, param_id)
+                ),
+                found: quiver_core::format::format_type_by_id(&*self.program, arg_type),
+            });
+        }
+        Ok(false)
     }
 
     /// Compile a ripple tail call (`^~`, `^~ x`): tail-call the flowing value, which must be a
